@@ -90,6 +90,15 @@ def merge_chunk(total: Dict[str, Any], agg: Dict[str, Any], pool_idx: int) -> No
     total.setdefault("digests", set()).update(agg.get("digests", ()))
     for k, v in agg.get("sets", {}).items():
         total.setdefault("sets", {}).setdefault(k, set()).update(v)
+    if agg.get("cross"):
+        d = total.setdefault("cross", {}).setdefault(pool_idx, {})
+        for k, val in agg["cross"].items():
+            if k not in d:
+                d[k] = val
+            elif d[k][0] != val[0]:
+                total.setdefault("cross_conflicts", []).append((pool_idx, k, d[k][1], val[1]))
+    for c in agg.get("cross_conflicts", []):
+        total.setdefault("cross_conflicts", []).append((pool_idx,) + tuple(c))
     total.setdefault("digest_by_index", {}).update(agg.get("digest_by_index", {}))
     if len(total.setdefault("samples", [])) < 3:
         total["samples"].extend(agg.get("samples", [])[:3 - len(total["samples"])])
@@ -230,6 +239,9 @@ def check(prop: str, tier: str, batch_seed: int, repo: str, workers: int = 16,
                     key, {"count": 0, "run_seed": v.get("run_seed", 0), "index": v.get("index", 0),
                           "v": v, "trace": v.get("trace"), "pool": v.get("pool", 0)})["count"] += 1
 
+        if total.get("cross_conflicts"):
+            raise HarnessError("outcomes of identical (operation, flag) pairs differ between workers with "
+                               f"identical knobs: {total['cross_conflicts'][:5]}")
         # determinism self-test: the same seeds in a fresh interpreter, other hash seed
         dets = {"checked": 0, "mismatch": []}
         if M.get("selftest_runs", 5) > 0 and total.get("digest_by_index"):
@@ -265,14 +277,21 @@ def check(prop: str, tier: str, batch_seed: int, repo: str, workers: int = 16,
                       f"[signature={json.dumps(e['signature'], sort_keys=True)} "
                       f"occurrences_in_this_run={cnt}]", flush=True)
         replays: List[str] = []
+        reported_keys = set()
         max_report = M.get("max_reports", 6)
         for key, ent in new_viols[:max_report]:
             pi = ent["pool"]
             if ent.get("trace") is None:
                 raise HarnessError(f"violation {key} has no trace")
             mini = pools.pools[pi].submit(worker.minimise, prop, ent["trace"], key,
-                                          tcfg.get("shrink_wall", 600.0)).result(
+                                          tcfg.get("shrink_wall", 600.0), tier, batch_seed).result(
                                               timeout=tcfg.get("shrink_wall", 600.0) + 30)
+            if not mini.get("shrunk"):
+                raise HarnessError(f"violation {key} could not be reproduced for minimisation: {mini.get('note')}")
+            key = mini.get("key", key)
+            if key in reported_keys:
+                continue
+            reported_keys.add(key)
             path = write_replay(prop, meta, ent, mini, key, batch_seed, tier, pool_knobs[pi], repo)
             rc, out = replay_in_fresh_process(path, repo)
             if rc != EXIT_VIOLATION:
